@@ -138,6 +138,29 @@ fn map_err_factory_run_to_completion() {
     core::mem::forget(wk);
 }
 
+/// Clone: a clone is the same combinator over the same parts — `map_err_call` holds of it verbatim   [C11]
+#[kani::proof]
+fn map_err_call_on_clone() {
+    let orig = MapErr::<_, u8, _, u16>::new(Leaf { id: 0 }, mapper);
+    let s = orig.clone();          // everything below is asked of the CLONE
+    let req: u8 = kani::any();
+    let f = s.call(req);
+    assert!(calls(0) == 1 && call_req(0) == req);
+    assert!(m_calls() == 0 && fut_polls(0) == 0 && rdy_polls(0) == 0);
+    assert!(f.fut.id == 0 && !f.fut.done);
+}
+
+/// Clone: a clone is the same combinator over the same parts — `map_err_factory_new_service` holds of it verbatim   [C11]
+#[kani::proof]
+fn map_err_factory_new_service_on_clone() {
+    let orig = MapErrServiceFactory::<_, u8, _, u16>::new(LeafFactory { id: 0 }, mapper);
+    let fac = orig.clone();          // everything below is asked of the CLONE
+    let cfg: u8 = kani::any();
+    let f = fac.new_service(cfg);
+    assert!(new_calls(0) == 1 && new_cfg(0) == cfg && fact_polls(0) == 0 && m_calls() == 0);
+    assert!(f.fut.id == 0 && !f.fut.done);
+}
+
 #[kani::proof]
 fn reach() {
     let mut f = MapErrFuture::<Leaf, u8, _, u16>::new(OFut { id: 0, done: false }, mapper);
